@@ -84,11 +84,17 @@ def map_diags(meta, diags, woven_name):
     failed = {}
     tool = []
     lemma = []
+    site_clause = {}
 
     def add(oid, msg):
         failed.setdefault(oid, [])
         if msg not in failed[oid]:
             failed[oid].append(msg)
+
+    byid = {o["id"]: o for o in obs}
+
+    def in_ranges(L, ranges):
+        return any(a <= L <= b for (a, b) in ranges)
 
     for d in diags:
         if d.get("level") != "error":
@@ -98,7 +104,6 @@ def map_diags(meta, diags, woven_name):
             continue
         spans = [s for s in d.get("spans", []) if s.get("file_name", "").endswith(woven_name)]
         if not spans:
-            # errors without a location in the woven file: rustc/verus front-end problems
             tool.append(msg)
             continue
         if d.get("code") is not None or "rlimit" in msg.lower() or "resource limit" in msg.lower() \
@@ -106,25 +111,49 @@ def map_diags(meta, diags, woven_name):
             tool.append("%s @%d" % (msg, spans[0]["line_start"]))
             continue
         rendered = (d.get("rendered") or msg)[:1500]
-        hit = []
-        for s in spans:
+        prim = [s for s in spans if s.get("is_primary")] or spans
+        sec = [s for s in spans if not s.get("is_primary")]
+        L = prim[0]["line_start"]
+
+        def obs_at(line, kinds=None):
+            r = []
             for o in obs:
                 if o.get("fallback"):
                     continue
-                if o["line_start"] <= s["line_start"] <= o["line_end"]:
-                    hit.append(o["id"])
-        # a failed precondition at a registered call/site: prefer the site over the callee clause
-        prim = [s for s in spans if s.get("is_primary")] or spans
-        if hit:
-            for oid in dict.fromkeys(hit):
-                add(oid, rendered)
-            continue
-        L = prim[0]["line_start"]
+                if kinds and o["kind"] not in kinds:
+                    continue
+                if o["line_start"] <= line <= o["line_end"]:
+                    r.append(o)
+            return r
+
         f = [x for x in fns if x["woven_line_start"] <= L <= x["woven_line_end"]]
-        if f:
-            add("%s/safety" % f[0]["path"], rendered)
-        else:
+        if not f:
             lemma.append("%s @%d" % (msg, L))
+            continue
+        fpath = f[0]["path"]
+        # 1. the primary span is a registered clause / tagged hint (failed ensures, invariant, hint)
+        direct = [o for o in obs_at(L) if o["kind"] != "site"]
+        # "postcondition not satisfied": primary is the ensures clause; "invariant not satisfied": the clause
+        if direct:
+            for o in direct:
+                add(o["id"], rendered)
+            continue
+        # 2. untagged ghost text of this function
+        if in_ranges(L, f[0].get("ghost_ranges", [])):
+            add("%s/hints" % fpath, rendered)
+            continue
+        # 3. executable text: a registered site, else the function's safety obligation
+        sites = [o for o in obs_at(L, ("site",))]
+        if sites:
+            for o in sites:
+                add(o["id"], rendered)
+                # a failed `requires` of a contracted callee: remember which clause (its tags decide)
+                for s in sec:
+                    for c in obs_at(s["line_start"], ("requires",)):
+                        site_clause.setdefault(o["id"], set()).add(c["id"])
+            continue
+        add("%s/safety" % fpath, rendered)
+    map_diags.site_clause = {k: sorted(v) for k, v in site_clause.items()}
     return failed, tool, lemma
 
 
@@ -182,6 +211,7 @@ def compute(tier):
         seed = int(os.environ.get("VERIF_SEED", "0")) % 100000
         main = run_verus(os.path.join(cdir, "woven.rs"), ["--smt-option", "smt.random_seed=%d" % seed])
         failed, tool, lemma = map_diags(meta, main["diags"], "woven.rs")
+        res["site_clause"] = map_diags.site_clause
         if main["out"] is None:
             tool.append("verus produced no result json: %s" % main["stderr_tail"][-800:])
         fb = fn_breakdown(main["out"])
@@ -304,19 +334,31 @@ def main():
     und_ids = set(u["obligation"] for u in undecided)
     # ---- obligations of this property
     fn_tags = {}
+    byid = {o["id"]: o for o in meta["obligations"]}
     for o in meta["obligations"]:
         if not o.get("fallback"):
             fn_tags.setdefault(o["fn"], set()).update(o["tags"])
+    site_clause = r.get("site_clause", {})
     mine = []
     for o in meta["obligations"]:
         if o["kind"] == "vacuity" or o["id"] in und_ids:
             continue
-        if o.get("fallback"):
+        if o.get("union_tags"):
             if pid in fn_tags.get(o["fn"], ()):
                 mine.append(o)
+        elif o["kind"] == "site" and o["name"].startswith("call:"):
+            # a call to a contracted function: belongs to the properties of the callee's requires clauses;
+            # when it fails, only to those of the clause that failed
+            callee = o["name"][5:].split("#")[0]
+            ctags = set()
+            failed_clauses = site_clause.get(o["id"])
+            for c in meta["obligations"]:
+                if c["kind"] == "requires" and c["fn"].split("::")[-1].split(" ")[-1] == callee:
+                    if failed_clauses is None or c["id"] in failed_clauses:
+                        ctags.update(c["tags"])
+            if pid in ctags or (pid == "C06" and failed_clauses is not None and not ctags):
+                mine.append(o)
         elif pid in o["tags"]:
-            mine.append(o)
-        elif o["kind"] == "site" and o["name"].startswith("call:") and pid in fn_tags.get(o["fn"], ()):
             mine.append(o)
     failed = r["failed"]
     known = [k for k in load_known() if k.get("status") == "known" and k["property"] == pid]
